@@ -31,6 +31,26 @@ def plan(tier):
 
 def check_program(node, rec=None):
     ds, env = progcheck.build_checked(node)
+    # what happened to the pipeline object BEFORE it is indexed varies from program to program (a pure function of
+    # the program): nothing / a complete pass / an abandoned pass plus len() and keys() - indexing must not care
+    pre = progs.crc(progs.show(node)) % 3
+    if pre:
+        try:
+            if pre == 1:
+                observe.take(lambda: ds, 500)
+            else:
+                it = iter(ds)
+                try:
+                    next(it)
+                finally:
+                    if hasattr(it, 'close'):
+                        it.close()
+                len(ds)
+                ds.keys()
+        except observe.PASS_THROUGH:
+            raise
+        except BaseException as e:  # raising programs, datasets without length / keys: not this check's subject
+            e.__traceback__ = None
     indexed = 0
     for path, sub in sorted(progcheck.subnodes(node), key=lambda t: -len(t[0])):
         m = ev(sub)
